@@ -44,7 +44,7 @@ POLICIES = {
     # legal but unusual identifiers: session handles and connection ids with the top bit set, and the smallest ones
     "hiids": dict(session_handles=[0x80000001, 0xFFFFFFFE, 0x7FFFFFFF, 0x80000000], conn_ids=[0x80000000, 0xFFFFFFFF, 0x00000001, 0x7FFFFFFF]),
 }
-FAULT_KINDS = ("send_err", "send_partial", "recv_err", "recv_close", "recv_trunc")
+FAULT_KINDS = ("send_err", "send_partial", "recv_err", "recv_close", "recv_trunc", "reply_lost", "send_timeout")
 EVENTS = {
     "cip": ("open", "close", "gen_c", "gen_u", "with_ok", "with_raise", "with_comm"),
     "logix_noinit": ("open", "close", "read", "write", "gen_c", "gen_u", "with_ok", "with_raise", "with_comm"),
@@ -158,7 +158,7 @@ class Run:
         self.last_io = w.io_total - io0
         fired = bool(w.fault_fired) and w.fault_fired[-1][0] == (fault[0] if fault else None) and len(w.fault_fired) > getattr(self, "_fired_seen", 0)
         self._fired_seen = len(w.fault_fired)
-        if fired:
+        if fired and w.fault_fired[-1][1] != "reply_lost":
             self.tcp_killed = True  # every injected fault leaves that TCP connection unusable (reset, broken pipe, peer gone)
         if fired and sum(1 for x in t.fo_log if x[2]) > fo_before:
             self.fo_reply_lost = True  # the target opened a connection during an event whose I/O failed: the client may not know it
